@@ -8,6 +8,7 @@
 From Coq Require Import List String NArith ZArith Bool Permutation.
 Import ListNotations.
 From Solstat Require Import Bytes Tables Sections Report ReportSort ReportSet.
+From Solstat Require Effects EffectsProof.
 Local Open Scope string_scope.
 Local Open Scope list_scope.
 
@@ -99,3 +100,18 @@ Print Assumptions ex_hypotheses.
 Example ex_same_bytes : generate_vulnerability_report ex_F1 = generate_vulnerability_report ex_F2.
 Proof. vm_compute; reflexivity. Qed.
 Print Assumptions ex_same_bytes.
+
+(* ---- tie to the source.  "Two runs over the same directory content produce byte-identical reports": the report is
+   render(findings) and the findings are a function of what the run reads.  The inventory regenerated from /repo/src on
+   every run (gen/Effects.v) shows that a run reads the directory tree and the configuration file only, consults neither
+   the environment nor the clock (no env::, time or random API: they would appear in effects_process), and keeps no state
+   outside its own stack; the per-process randomness that remains is the HashMap iteration order, which the theorems
+   above quantify over. *)
+Theorem a_run_reads_the_tree_and_the_configuration_only :
+  Effects.effects_read = EffectsProof.expected_read /\ Effects.effects_process = EffectsProof.expected_process /\
+  Effects.shared_state = [].
+Proof.
+  exact (conj (proj1 (proj2 EffectsProof.effects_match_model_lemma))
+              (conj (proj2 (proj2 EffectsProof.effects_match_model_lemma)) EffectsProof.no_shared_state_lemma)).
+Qed.
+Print Assumptions a_run_reads_the_tree_and_the_configuration_only.
